@@ -49,6 +49,7 @@ type c17ConnMon struct {
 	// the monitor's own slot count at the start of the step (black box):
 	existed        bool  // the connection existed when the step began
 	openBefore     int   // streams open on the wire
+	halfBefore     int   // of these: streams whose response has ended while the request half is still open
 	unopenedBefore int   // requests handed to this connection by the pool that have not opened their stream yet
 	allowedBefore  int64 // largest limit that can be in force at the client
 }
@@ -114,12 +115,30 @@ func (m *c17Mon) begin() {
 		}
 		cm.existed = true
 		cm.openBefore = c.openCount()
+		cm.halfBefore = c17HalfOpen(c)
+		if cm.halfBefore > 0 {
+			m.feat["stream-open-after-response-ended"] = true
+		}
 		cm.unopenedBefore = len(m.unopened(c))
 		if cm.unopenedBefore > 1 {
 			m.feat["request-queued-behind-stuck-write"] = true
 		}
 		cm.allowedBefore = cm.allowed()
 	}
+}
+
+// c17HalfOpen counts the streams of c that are still open on the wire although
+// the server has ended its half (RFC 9113 5.1 "half-closed (remote)" from the
+// client's point of view): they count against the limit until the client sends
+// END_STREAM or either side sends RST_STREAM.
+func c17HalfOpen(c *c17Conn) int {
+	n := 0
+	for _, st := range c.streams {
+		if st.open() && st.srvEnded && !st.cliEnded {
+			n++
+		}
+	}
+	return n
 }
 
 // unopened lists the requests that the pool handed to connection c (first
@@ -220,6 +239,8 @@ func (m *c17Mon) poolDecision() {
 		trig := "all-slots-open-on-wire"
 		if cm.unopenedBefore > 0 {
 			trig = "slots-held-by-unopened-requests"
+		} else if cm.halfBefore > 0 {
+			trig = "slot-held-by-stream-whose-response-ended-with-request-half-open"
 		}
 		m.fail("pool/connection-at-limit-chosen/"+trig, "the pool handed new request %d to conn %d, which was at its limit: %d stream(s) open on the wire + %d request(s) already handed to it that have not opened their stream yet (server reading: %v) >= limit %d; history:%s", idx, c.idx, cm.openBefore, cm.unopenedBefore, !c.notReading, cm.allowedBefore, h.history())
 	}
@@ -242,7 +263,12 @@ func (m *c17Mon) observe(frames map[int][]c15Frame) {
 				cm.maxID = f.Stream
 				allowed := cm.allowed()
 				if open := int64(c.openCount()); open >= allowed {
-					m.fail("limit/stream-opened-at-or-above-limit/"+m.mode(), "client opened stream %d on conn %d while %d streams were open and the limit in force was %d; history:%s", f.Stream, c.idx, open, allowed, m.h.history())
+					sig, half := "limit/stream-opened-at-or-above-limit/"+m.mode(), c17HalfOpen(c)
+					if half > 0 {
+						// abstract situation: the response of an open stream has ended, its request half has not
+						sig += "/response-ended-request-half-open"
+					}
+					m.fail(sig, "client opened stream %d on conn %d while %d streams were open (%d of them: response ended, request half neither ended nor reset) and the limit in force was %d; history:%s", f.Stream, c.idx, open, half, allowed, m.h.history())
 				}
 				if c.openCount() > 0 {
 					m.feat["concurrent-streams"] = true
@@ -293,6 +319,18 @@ func (m *c17Mon) quiescent() {
 	}
 }
 
+// c17Shapes: request shapes, by the suffix of the Q event (see c17cli.request).
+// They differ in how, and whether, the request half of the stream is closed.
+var c17Shapes = map[string]string{
+	"":  "",          // GET: END_STREAM on the request HEADERS
+	"k": "replay",    // body of declared length: END_STREAM on the last DATA frame
+	"b": "once",      // body of undeclared length: END_STREAM on an empty DATA frame
+	"t": "trl-set",   // body + announced trailer, filled in at EOF: END_STREAM on the trailer HEADERS
+	"u": "trl-unset", // body + announced trailer, never filled in: no trailer fields to send
+	"e": "trl-empty", // body + empty non-nil Request.Trailer
+	"s": "stalled",   // body that does not reach EOF before event D<i>: the request half stays open
+}
+
 // c17Exec runs one case in the current bubble.
 func c17Exec(t testing.TB, w *vx.W, cs c17Case) {
 	strict := cs.Mode == "strict"
@@ -323,8 +361,22 @@ func c17Exec(t testing.TB, w *vx.W, cs c17Case) {
 			return
 		}
 		switch {
-		case ev == "Q":
-			h.request("")
+		case ev[0] == 'Q':
+			kind, ok := c17Shapes[ev[1:]]
+			if !ok {
+				panic("unknown request shape " + ev)
+			}
+			h.request(kind)
+			if kind != "" {
+				m.feat["request-with-body"] = true
+			}
+		case ev[0] == 'D':
+			i, _ := strconv.Atoi(ev[1:])
+			if i < 1 || i > len(h.reqs) || h.reqs[i-1].stall == nil || !h.reqs[i-1].stall.stalled() {
+				w.Outcome("pruned:body-not-stalled")
+				return
+			}
+			h.reqs[i-1].stall.release()
 		case ev[0] == 'C':
 			i, _ := strconv.Atoi(ev[1:])
 			if i < 1 || i > len(h.reqs) || h.reqs[i-1].cancelled || h.reqs[i-1].finished() {
@@ -400,8 +452,13 @@ func c17Exec(t testing.TB, w *vx.W, cs c17Case) {
 			panic("unknown event " + ev)
 		}
 		m.observe(h.settle())
-		if ev == "Q" {
+		if ev[0] == 'Q' {
 			m.afterRequest()
+			for _, c := range conns {
+				if cm := m.conn(c); cm.halfBefore > 0 && int64(cm.openBefore) >= cm.allowedBefore {
+					m.feat["request-while-slot-held-by-stream-whose-response-ended"] = true
+				}
+			}
 		}
 		m.quiescent()
 		applied++
@@ -435,6 +492,15 @@ func c17Exec(t testing.TB, w *vx.W, cs c17Case) {
 		}
 	}
 	w.Outcome(strings.Join(feats, "+"))
+	if m.feat["request-with-body"] {
+		feats = []string{"request-with-body"}
+		for _, k := range []string{"stream-open-after-response-ended", "request-while-slot-held-by-stream-whose-response-ended"} {
+			if m.feat[k] {
+				feats = append(feats, k)
+			}
+		}
+		w.Outcome(strings.Join(feats, "+"))
+	}
 	if m.feat["server-not-reading"] {
 		feats = []string{"server-not-reading"}
 		for _, k := range []string{"request-queued-behind-stuck-write", "blocked-requests-released", "request-while-connection-full-of-unopened-requests"} {
@@ -462,7 +528,7 @@ func c17Exec(t testing.TB, w *vx.W, cs c17Case) {
 // and everything on other connections.
 func c17SecondWriter(h *c17cli, conns []*c17Conn, ev string) bool {
 	var target *c17Conn
-	if len(ev) >= 2 && ev[0] != 'C' {
+	if len(ev) >= 2 && ev[0] != 'C' && ev[0] != 'Q' && ev[0] != 'D' {
 		if i := int(ev[1] - 'a'); i >= 0 && i < len(conns) {
 			target = conns[i]
 		}
@@ -501,6 +567,13 @@ func c17SecondWriter(h *c17cli, conns []*c17Conn, ev string) bool {
 			if last == c.idx && i >= 1 && i <= len(h.reqs) && !h.reqs[i-1].finished() && (stuck || pend) {
 				return true // clean-up of the cancelled request takes the write lock; the abort wakes a waiter
 			}
+		case 'D':
+			i, _ := strconv.Atoi(ev[1:])
+			for _, a := range h.assignList() {
+				if a.req == i-1 && a.conn == c.idx {
+					return true // the end of the body is written while the server is not reading
+				}
+			}
 		}
 	}
 	return false
@@ -521,6 +594,7 @@ func c17RunCase(c *vx.Ctx, w *vx.W, cs c17Case) {
 
 type c17GenState struct {
 	nQ        int
+	stalled   [8]bool // request i has a stalled body that has not been released
 	cancelled [8]bool
 	nS        [2]int
 	nB        [2]int
@@ -544,12 +618,17 @@ type c17GenOpts struct {
 	limits  string // characters among "012n"
 	maxS    int    // SETTINGS events per connection
 	refused bool
-	maxB    int // "server stops reading" events per connection (each may be followed by "resumes reading")
+	maxB    int    // "server stops reading" events per connection (each may be followed by "resumes reading")
+	shapes  string // request shapes besides the plain GET: suffixes of the Q event (keys of c17Shapes)
 }
 
 func c17GenNext(st *c17GenState, o c17GenOpts, emit func(ev string, apply func(*c17GenState))) {
 	if st.nQ < o.maxQ {
 		emit("Q", func(s *c17GenState) { s.nQ++ })
+		for _, sh := range o.shapes {
+			sh := sh
+			emit("Q"+string(sh), func(s *c17GenState) { s.nQ++; s.stalled[s.nQ] = sh == 's' })
+		}
 	}
 	if st.nQ == 0 {
 		return // no connection exists before the first request
@@ -558,6 +637,9 @@ func c17GenNext(st *c17GenState, o c17GenOpts, emit func(ev string, apply func(*
 		i := i
 		if !st.cancelled[i] {
 			emit("C"+strconv.Itoa(i), func(s *c17GenState) { s.cancelled[i] = true })
+		}
+		if st.stalled[i] {
+			emit("D"+strconv.Itoa(i), func(s *c17GenState) { s.stalled[i] = false })
 		}
 	}
 	for ci := 0; ci < o.conns; ci++ {
@@ -634,8 +716,9 @@ func c17Gen(mode string, depth int, o c17GenOpts, prefix []string, yield func(c1
 func TestVerif_C17(t *testing.T) {
 	vx.Run(t, "C17", func(c *vx.Ctx) {
 		depth := vx.Pick(c, 6, 8)
-		c.Rule(fmt.Sprintf("every statically legal sequence of 1..%d events (shortest first) over {Q new request (<=%d), C_i cancel request i, S<conn><k> server SETTINGS with MAX_CONCURRENT_STREAMS k in {0,1,2} or without the field (<=2 per connection), E<conn><j> response with END_STREAM on the j-th stream of the connection, R<conn><j> RST_STREAM(CANCEL), F<conn><j> RST_STREAM(REFUSED_STREAM) (thorough), P<conn> acknowledge the client's PINGs, B<conn> the server stops reading from the connection (the client's writes block: a request-header write gets stuck holding the connection's new-request lock and further requests handed to the connection queue behind it; <=1 per connection), U<conn> the server reads again}, in mode strict (Transport.StrictMaxConcurrentStreams, one connection) and mode pool (default Transport, two connections addressable; one level shallower), plus seeded prefixes (three strict and two pooled ones with the server reading; pooled limit 2 with an idle connection whose server has stopped reading, pooled limit 2 with one request stuck in its header write and one queued behind it, strict limit 1 with a waiting request and the server not reading); each case runs a fresh real Transport in its own synctest bubble whose dialled connections end in the harness; every pool decision is observed through httptrace GotConn; at the end of every case the server reads again on every connection and 120 s of fake time pass (every retry back-off of the Transport expires) and the clauses are evaluated again; a case is non-trivial when all its events were applicable at run time", depth, vx.Pick(c, 3, 4)))
-		c.Assume("limit in force for a new stream = the larger of the MAX_CONCURRENT_STREAMS values delivered before and during the step in which its HEADERS is observed (no limit before the first SETTINGS); a stream is open on the wire from its HEADERS until END_STREAM both ways or RST_STREAM either way")
+		c.Rule(fmt.Sprintf("every statically legal sequence of 1..%d events (shortest first) over {Q new request (<=%d), C_i cancel request i, S<conn><k> server SETTINGS with MAX_CONCURRENT_STREAMS k in {0,1,2} or without the field (<=2 per connection), E<conn><j> response with END_STREAM on the j-th stream of the connection, R<conn><j> RST_STREAM(CANCEL), F<conn><j> RST_STREAM(REFUSED_STREAM) (thorough), P<conn> acknowledge the client's PINGs, B<conn> the server stops reading from the connection (the client's writes block: a request-header write gets stuck holding the connection's new-request lock and further requests handed to the connection queue behind it; <=1 per connection), U<conn> the server reads again}, in mode strict (Transport.StrictMaxConcurrentStreams, one connection) and mode pool (default Transport, two connections addressable; one level shallower), plus, for the request-shape axis, every sequence of 1..%d (pooled: 1..%d) events over the same alphabet without B/U/F and with limits {1,2}, where a new request is any of Q (GET, END_STREAM on the request HEADERS), Qk (3-byte body of declared length, END_STREAM on the last DATA), Qb (body of undeclared length, END_STREAM on an empty DATA), Qt (body + Request.Trailer announcing a key with a nil value that is filled in when the body reaches EOF, END_STREAM on the trailer HEADERS), Qu (the same, never filled in: no trailer fields to send), Qe (body + empty non-nil Request.Trailer), Qs (body that stalls after 3 bytes: the request half stays open, also after the response has ended) and D_i lets the stalled body of request i reach EOF (<=3 requests), and 1..%d events after the prefix [Q<shape>, Sa1] for each of the six body shapes in both modes (later requests plain or of that shape); plus seeded prefixes (three strict and two pooled ones with the server reading; pooled limit 2 with an idle connection whose server has stopped reading, pooled limit 2 with one request stuck in its header write and one queued behind it, strict limit 1 with a waiting request and the server not reading); each case runs a fresh real Transport in its own synctest bubble whose dialled connections end in the harness; every pool decision is observed through httptrace GotConn; at the end of every case the server reads again on every connection and 120 s of fake time pass (every retry back-off of the Transport expires) and the clauses are evaluated again; a case is non-trivial when all its events were applicable at run time", depth, vx.Pick(c, 3, 4), vx.Pick(c, 4, 5), vx.Pick(c, 4, 5), vx.Pick(c, 3, 4)))
+		c.Assume("limit in force for a new stream = the larger of the MAX_CONCURRENT_STREAMS values delivered before and during the step in which its HEADERS is observed (no limit before the first SETTINGS); a stream is open on the wire from its HEADERS until END_STREAM both ways or RST_STREAM either way (RFC 9113 5.1, 5.1.2: a stream whose response has ended keeps counting until the client has sent END_STREAM or either side RST_STREAM), whatever the client believes it has sent")
+		c.Assume("request shapes: bodies are 3 bytes, so flow control never delays them; trailer shapes use a body of undeclared length (declared length + trailers is not explored); a stalled body ends only by D_i, by the Transport closing it, or at the end of the case; request shapes are not combined with the server not reading (B/U) or REFUSED_STREAM retries")
 		c.Assume("pool clause, black box: when a new request arrives, a connection is at its limit if (streams open on the wire) + (requests the pool handed to it on their first attempt, not handed elsewhere since, not finished, whose HEADERS have not appeared on it) >= the largest limit that can be in force at the client; retried attempts that have not opened a stream are not counted (a request in the Transport's retry back-off holds no slot and cannot be told apart from outside), so the count is a lower bound of the slots a correct client accounts for; only the first pool decision of the new request in its own step is judged")
 		c.Assume("while the server is not reading, and in the step in which it resumes, the limit in force is taken as the largest of the limit at the moment it stopped reading and every limit sent since (the client's read loop may be stuck writing an acknowledgement; streams admitted earlier reach the wire late)")
 		c.Assume("testing/synctest cannot settle while a goroutine waits for a sync.Mutex, so on a connection whose server is not reading at most one client write may be outstanding: events that could make a second goroutine want the connection's write lock while one write is stuck (SETTINGS to be acknowledged, responses/resets/cancellations whose clean-up takes the write lock, anything that could release a strict-mode waiter, a new request that would not queue on the new-request lock) are pruned (outcome pruned:second-writer-on-connection-with-stuck-write); what remains while a header write is stuck: new requests, PING acknowledgements, resume reading, all events on the other connection")
@@ -653,6 +736,20 @@ func TestVerif_C17(t *testing.T) {
 		}
 		run("strict", "strict", depth, strictO, nil)
 		run("pool", "pool", depth-1, poolO, nil)
+		// request shapes: how, and whether, the request half of a stream gets closed
+		shapeD := vx.Pick(c, 4, 5)
+		shapeS := c17GenOpts{maxQ: 3, conns: 1, limits: "12", maxS: vx.Pick(c, 1, 2), shapes: "kbtues"}
+		run("strict-shapes", "strict", shapeD, shapeS, nil)
+		shapeP := c17GenOpts{maxQ: 3, conns: 2, limits: "12", maxS: 1, shapes: "kbtues"}
+		run("pool-shapes", "pool", vx.Pick(c, 4, 5), shapeP, nil)
+		// one level deeper per shape: the connection is at limit 1 with a request of that shape; later requests are plain or of the same shape
+		for _, sh := range "kbtues" {
+			first := "Q" + string(sh)
+			o := c17GenOpts{maxQ: 4, conns: 1, limits: "12", maxS: 2, shapes: string(sh)}
+			run("seed-strict-limit1-shape-"+string(sh), "strict", vx.Pick(c, 3, 4), o, []string{first, "Sa1"})
+			o.conns = 2
+			run("seed-pool-limit1-shape-"+string(sh), "pool", vx.Pick(c, 3, 4), o, []string{first, "Sa1"})
+		}
 		sd := vx.Pick(c, 3, 4)
 		seedO := c17GenOpts{maxQ: 4, conns: 1, limits: "012n", maxS: 3, refused: true}
 		run("seed-strict-limit1-two-waiting", "strict", sd, seedO, []string{"Q", "Sa1", "Q", "Q"})
